@@ -587,13 +587,17 @@ fn tasks_for(prop: &str, tier: &str, seed: u64) -> Vec<Task> {
         }
         "C13" => {
             let mut out = vec![];
-            for variant in ["default_bases", "random_bases", "default_bases_literals", "random_bases_literals", "identity_blinding_base_literals", "identity_value_base_literals", "identity_blinding_base", "torsion_bases_literals", "torsion_bases"] {
+            for variant in ["default_bases", "random_bases", "default_bases_literals", "random_bases_literals", "identity_blinding_base_literals", "identity_value_base_literals", "identity_blinding_base", "torsion_bases_literals", "torsion_bases", "equal_bases_literals", "opposite_bases_literals", "torsion_mirror_bases_literals"] {
                 for c in ["secq256k1", "zorro", "curve25519"] {
                     if variant.starts_with("torsion") && c != "curve25519" {
                         continue;
                     }
                     let (variant, c) = (variant.to_string(), c.to_string());
                     let (variant0, c0) = (variant.clone(), c.clone());
+                    // related bases (equal, opposite, mirrored) only on the plain curves: in the term model two such points
+                    // would be independent symbols
+                    let native_only = variant.starts_with("equal_") || variant.starts_with("opposite_") || variant.starts_with("torsion_mirror");
+                    if !native_only {
                     out.push(Task {
                         name: format!("C13:{}:{}", variant, c),
                         replay: serde_json::json!({"kind": "c13", "variant": variant, "seed": seed}),
@@ -603,6 +607,7 @@ fn tasks_for(prop: &str, tier: &str, seed: u64) -> Vec<Task> {
                             _ => scen_c10::job_c13::<Ed>(&variant, seed, &c, Some(ed_torsion())),
                         }),
                     });
+                    }
                     // concrete companion on the plain curve: the carriers' shadow arithmetic does not go through the curve
                     // configuration's own affine scalar multiplication, the real `PedersenGens::commit` does
                     if variant0.ends_with("literals") {
